@@ -28,6 +28,12 @@ type mwSpec struct{ pkg, typ string }
 var middlewares = []mwSpec{{"stream", "Stream"}, {"trace", "Tracer"}, {"connlimit", "ConnLimiter"}, {"ratelimit", "TokenLimiter"}, {"cbreaker", "CircuitBreaker"}, {"roundrobin", "RoundRobin"}, {"roundrobin", "Rebalancer"}, {"buffer", "Buffer"}}
 
 func runC20(p *Prog, r *Report) {
+	// R15: recording a completion cannot deadlock with the reset at a trip (shared with C09.R9); R16: a request at exactly the limit is not refused (shared with C15.R1); R17: the affinity cookie is added to, not set over, the response's cookies (shared with C11.R3)
+	if rt := p.Named("memmetrics", "RTMetrics"); rt != nil {
+		r.Floor("C20.R15", c09LockOrder(p, r, "C20.R15", []*types.Named{rt}), 1, "nested lock acquisitions of RTMetrics")
+	}
+	r.Borrow(p, runC15, map[string]string{"C15.R1": "C20.R16"}, nil)
+	r.Borrow(p, runC11, map[string]string{"C11.R3": "C20.R17"}, func(o Ob) bool { return strings.Contains(o.Construct, "cookie") })
 	// R14: a balancer that has no reason to intervene does not block: every lock of package roundrobin is released on every path (shared with C09.R3)
 	r.Floor("C20.R14", c09Pairing(p, r, "C20.R14", "roundrobin"), 3, "lock acquisitions in package roundrobin")
 	// R12: a limiter that is not at its limit stays out of the way on later requests too: counts are given back under the key they were taken with (shared with C04.R2); R13: side effects of a trip do not hold up requests (shared with C18.R4)
@@ -446,6 +452,22 @@ func c20Wrappers(p *Prog, r *Report) {
 			r.Check(okL, "C20.R3", "utils."+fn.Name()+": gives the writer a logger", p.FuncPos(fn), "the logger field of the new writer is set on every path", "the constructor leaves the writer's logger nil: when the wrapped writer cannot be hijacked (or lacks CloseNotify) the fall-back branch logs through the nil interface and panics instead of reporting the error")
 		}
 		r.Floor("C20.R3", nC, 1, "constructors allocating a ProxyWriter")
+	}
+	// http.ResponseController prefers FlushError over Flush: a FlushError that does not fall back to the wrapped
+	// writer's plain Flush shadows the (correct) Flush method and every flush of the relay is dropped
+	if fe := p.MethodOf(pw, "FlushError"); fe != nil && fe.Blocks != nil {
+		r.Fn(FName(fe))
+		fallsBack := false
+		for _, c := range Calls(fe) {
+			if _, ok := IsInvoke(c, "Flush"); ok {
+				fallsBack = true
+			}
+			if f := c.Common().StaticCallee(); f != nil && recvNamed(f) == pw && f.Name() == "Flush" {
+				fallsBack = true
+			}
+		}
+		r.Check(fallsBack, "C20.R3", "utils.(*ProxyWriter).FlushError: falls back to Flush", p.FuncPos(fe), "a writer that only has Flush() is still flushed",
+			"FlushError reports 'not supported' for a wrapped writer that has only Flush(): net/http's ResponseController (used by the reverse proxy) calls FlushError first, so streamed responses are no longer flushed to the client")
 	}
 	if m := p.MethodOf(pw, "Header"); m != nil {
 		r.Fn(FName(m))
